@@ -81,7 +81,12 @@ class Check:
             if f.startswith(self.pid + "-"):
                 os.remove(os.path.join(ev_dir, "replay", f))
         lines = []
+        printed = set()
         for v, k in matched:
+            kk = (k.get("rule"), k.get("function"), k.get("key"))
+            if kk in printed:
+                continue
+            printed.add(kk)
             lines.append("KNOWN-FINDING: property=%s %s [%s %s %s]" % (self.pid, k.get("what", v["msg"]), v["rule"], v["function"], v["key"]))
         for i, v in enumerate(unlisted):
             rp = os.path.join(ev_dir, "replay", "%s-%d.json" % (self.pid, i))
